@@ -29,6 +29,8 @@ import traceback
 HERE = os.path.dirname(os.path.abspath(__file__))
 VERIF = os.path.dirname(HERE)
 sys.path.insert(0, VERIF)
+# the code under test is always the working tree named by CIJ_REPO (default /repo), never an installed copy
+sys.path.insert(0, os.environ.get("CIJ_REPO", "/repo"))
 
 from harness import common  # noqa: E402
 from harness.common import Ctx, Driver, Result, OracleFailure, make_rng, jsonable  # noqa: E402
